@@ -149,19 +149,19 @@ where
             .await
     }
 
+    // The three requests below are sent by `write` / `delete` while they hold the lock of the storage, which
+    // the worker needs in order to process its queue: they must not wait for room in the channel
+
     pub(crate) async fn defer_dump_old_blob_indexes(&self) {
-        self.send_msg(Msg::new(OperationType::DeferredDumpBlobIndexes, None))
-            .await
+        self.send_hint(Msg::new(OperationType::DeferredDumpBlobIndexes, None))
     }
 
     pub(crate) async fn try_update_active_blob(&self) {
-        self.send_msg(Msg::new(OperationType::TryUpdateActiveBlob, None))
-            .await
+        self.send_hint(Msg::new(OperationType::TryUpdateActiveBlob, None))
     }
 
     pub(crate) async fn try_fsync_data(&self) {
-        self.send_msg(Msg::new(OperationType::TryFsyncData, None))
-            .await
+        self.send_hint(Msg::new(OperationType::TryFsyncData, None))
     }
 
     /// Verification hook: waits until every message queued so far has been processed and the
@@ -179,6 +179,29 @@ where
             rx.await.is_ok()
         } else {
             false
+        }
+    }
+
+    /// Sends a request that is repeated by later operations as long as its reason persists (the active blob is
+    /// full, too many bytes are not synced, an index waits for its dump). It never waits: when the channel is full
+    /// the worker has a backlog anyway and the request is dropped.
+    fn send_hint(&self, msg: Msg) {
+        if let ObserverState::Running(sender, _) = &self.state {
+            let optype = msg.optype.clone();
+            match sender.try_send(msg) {
+                Ok(()) => {}
+                Err(tokio::sync::mpsc::error::TrySendError::Full(_)) => {
+                    debug!("observer channel is full, request dropped: {:?}", optype);
+                }
+                Err(e) => {
+                    error!(
+                        "Can't send message to worker:\nOperation: {:?}\nReason: {:?}",
+                        optype, e
+                    );
+                }
+            }
+        } else {
+            error!("storage observer task was not launched");
         }
     }
 
